@@ -3,6 +3,8 @@
 # Applies the patch to /repo, runs the check, restores /repo.  Results -> /verif/seeded/MATRIX.txt
 tier=${1:-quick}
 cd /verif
+# runs against a modified tree must not overwrite the committed evidence
+export VERIF_EVIDENCE_DIR=/tmp/verif-evidence-scratch
 out=/verif/seeded/MATRIX.txt
 echo "# seed -> check exit code (1 = detected), tier=$tier, $(date -u +%FT%TZ), repo $(git -C /repo log -1 --format=%h)" > $out
 for d in seeded/C*/; do
